@@ -97,6 +97,88 @@ def c07(ctx):
     ctx.parallel(jobs, workers=len(jobs))
 
 
+def c11(ctx):
+    ctx.mon("c11/asm-debug", "asm", "debug", ["c11"])
+    ctx.mon("c11/asm-release", "asm", "release", ["c11"])
+    # evidence that the mmap path / the read fallback were really taken: syscall trace of the file part
+    import tempfile, re
+    exe = core.cargo_build("asm", "release")
+    fd, tr = tempfile.mkstemp(prefix="verif-strace-")
+    os.close(fd)
+    fd, outp = tempfile.mkstemp(prefix="verif-rep-")
+    os.close(fd)
+    rc, out, to = core.run(["strace", "-f", "-e", "trace=mmap,read,lseek,openat", "-o", tr, exe, "c11", "--files-only", "1", "--threads", "1",
+                            "--seed", str(ctx.seed), "--tier", "quick", "--out", outp], timeout=900)
+    try:
+        txt = open(tr, errors="replace").read()
+        shared = re.findall(r"mmap\(NULL, (\d+), PROT_READ, MAP_SHARED, \d+, 0\)", txt)
+        sizes = sorted(set(int(x) for x in shared))
+        obs = {"strace_rc": rc, "file_mmap_calls": len(shared), "smallest_mapped_len": sizes[0] if sizes else None,
+               "mapped_lens_below_16384": [x for x in sizes if x < 16384],
+               "lseek_end_calls": len(re.findall(r"lseek\(\d+, -16383, SEEK_END\)", txt)), "read_calls": txt.count("read(")}
+        if rc != 0 or not shared:
+            ctx.note_inconclusive("c11/strace: no mmap(MAP_SHARED) observed (rc=%s)" % rc)
+        ctx.add_observed("c11/strace-evidence", len(shared), min(len(sizes), len(shared)), [{"mapped_lengths_sample": sizes[:12]}],
+                         "syscall trace of the file lattice: which lengths were really mapped (evidence only)", obs)
+    finally:
+        for f in (tr, outp):
+            try:
+                os.unlink(f)
+            except OSError:
+                pass
+
+
+def c14(ctx):
+    ctx.mon("c14/asm-debug", "asm", "debug", ["c14"])
+    ctx.mon("c14/asm-release", "asm", "release", ["c14"])
+
+
+def c15(ctx):
+    ctx.mon("c15/asm-debug", "asm", "debug", ["c15"])
+    ctx.mon("c15/asm-release", "asm", "release", ["c15"])
+    # second, independent voice for the published vectors: pyspec (big-int Python model)
+    import json, sys
+    sys.path.insert(0, os.path.join(core.VERIF, "pyspec"))
+    import b3spec
+    lens = [0, 1, 2, 3, 4, 5, 6, 7, 8, 63, 64, 65, 127, 128, 129, 1023, 1024, 1025, 2048, 2049, 3072, 3073, 4096, 4097, 5120, 5121,
+            6144, 6145, 7168, 7169, 8192, 8193, 16384, 31744, 102400]
+    path = os.path.join(core.REPO, "test_vectors", "test_vectors.json")
+    try:
+        v = json.load(open(path))
+    except Exception as e:
+        ctx.add_violation("C15/json/parse", "test_vectors.json unreadable: %s" % e, {"kind": "none"})
+        return
+    key = b"whats the Elvish word for friend"
+    context = b"BLAKE3 2019-12-27 16:29:52 test vectors context"
+    n = 0
+    if v.get("key") != key.decode() or v.get("context_string") != context.decode():
+        ctx.add_violation("C15/json/key-or-context", "key/context_string fields differ from the published ones", {"kind": "cmd", "cmd": ["./check", "C15"]})
+    if [c.get("input_len") for c in v.get("cases", [])] != lens:
+        ctx.add_violation("C15/json/lengths", "input lengths differ from the canonical 35", {"kind": "cmd", "cmd": ["./check", "C15"]})
+    for c in v.get("cases", []):
+        L = c["input_len"]
+        data = bytes(i % 251 for i in range(L))
+        for field, mode in (("hash", "hash"), ("keyed_hash", "keyed"), ("derive_key", "derive")):
+            want = b3spec.xof(data, mode=mode, key=key, context=context, seek=0, length=131).hex()
+            n += 1
+            if c.get(field) != want:
+                ctx.add_violation("C15/json/vector-pyspec", "%s for input_len %d differs from pyspec (file %s..., model %s...)" % (field, L, str(c.get(field))[:20], want[:20]),
+                                  {"kind": "cmd", "cmd": ["./check", "C15"]})
+    ctx.add_observed("c15/json-vs-pyspec", n, n, [{"fields_compared": n, "bytes": n * 131}],
+                     "every hex string of test_vectors.json recomputed with pyspec (exhaustive over the finite file)", {"exhaustive": True, "fields": n})
+
+
+def c16(ctx):
+    ctx.mon("c16/asm-debug", "asm", "debug", ["c16"])
+    ctx.mon("c16/asm-release", "asm", "release", ["c16"])
+
+
+def c17(ctx):
+    ctx.mon("c17/asm-debug", "asm", "debug", ["c17"])
+    ctx.mon("c17/asm-release", "asm", "release", ["c17"])
+    ctx.mon("c17/pure-debug", "pure", "debug", ["c17", "--scale", "0.3"])
+
+
 PROPS = {
     "C01": c01,
     "C02": c02,
@@ -106,6 +188,11 @@ PROPS = {
     "C07": c07,
     "C09": c09,
     "C10": c10,
+    "C11": c11,
+    "C14": c14,
+    "C15": c15,
+    "C16": c16,
+    "C17": c17,
 }
 
 
